@@ -2191,7 +2191,7 @@ def call_str_method(interp, bm, args, kwargs):
     s, name = bm.s, bm.name
     if bm.concrete is not None and deep_concrete(args) and deep_concrete(kwargs):
         return interp.native(getattr(bm.concrete, name), args, kwargs)
-    if s.is_literal() and deep_concrete(args):
+    if s.is_literal() and deep_concrete(args) and deep_concrete(kwargs):
         return interp.native(getattr(s.literal(), name), args, kwargs)
     if name in ("startswith", "endswith") and len(args) == 1:
         fn = str_startswith if name == "startswith" else str_endswith
